@@ -1,2 +1,7 @@
 import PjrpcModel.Json
 import PjrpcModel.Msg
+import PjrpcModel.Defaults
+import PjrpcModel.Generated.Constants
+import PjrpcModel.Props.Constants
+import PjrpcModel.Props.C05
+import PjrpcModel.Props.C06
